@@ -434,6 +434,15 @@ where
     }
 }
 
+#[cfg(all(assets_manager_verif, feature = "hot-reloading"))]
+#[allow(missing_docs)]
+impl<S> AssetCache<S> {
+    /// Messages sent to the reloader thread and not yet taken by it (`None`: no reloader).
+    pub fn verif_msgs_pending(&self) -> Option<usize> {
+        self.reloader.as_ref().map(|r| r.verif_msgs_pending())
+    }
+}
+
 impl<S> Default for AssetCache<S>
 where
     S: Source + Default,
